@@ -45,7 +45,7 @@ namespace flog = fcppt::log;
 // locations addressed by the thread programs: 0 = [], 1 = [a], 2 = [a,b]
 using path = std::vector<int>;
 static path const LOCS[3] = {{}, {0}, {0, 1}};
-static char const *NAMES[3] = {"a", "b", "c"};
+static char const *NAMES[3] = {"ab", "a", "abc"}; // every pair is in a proper-prefix relation: names are compared as wholes
 
 static flog::location to_location(path const &p)
 {
